@@ -172,7 +172,10 @@ pub fn eval_from_bytes_bitcoin(bytes: &[u8], version_id: u8) -> EvaluatedScript 
         EvaluatedScript::new(address, ScriptPattern::Pay2Taproot)
     } else if script.is_witness_program() {
         EvaluatedScript::new(address, ScriptPattern::WitnessProgram)
-    } else if script.is_multisig() {
+    } else if script.instructions().take(20).count() < 20 && script.is_multisig() {
+        // A bare multisig has at most 19 instructions (OP_m, 16 keys, OP_n, OP_CHECKMULTISIG).
+        // Longer scripts are rejected up front: rust-bitcoin counts the pushes in a u8, which
+        // overflows (panic in debug builds, wrong verdict in release builds) after 255 pushes.
         EvaluatedScript::new(address, ScriptPattern::Pay2MultiSig)
     } else {
         EvaluatedScript::new(address, ScriptPattern::NotRecognised)
